@@ -1,0 +1,38 @@
+//go:build verif
+
+package clightning
+
+import (
+	"github.com/elementsproject/glightning/gbitcoin"
+	"github.com/elementsproject/glightning/glightning"
+	"github.com/elementsproject/peerswap/onchain"
+)
+
+// Verification hooks (build tag verif, add-only): construct a ClightningClient
+// whose wallet-facing parts (lightningd RPC socket, bitcoind RPC client,
+// BitcoinOnChain, reported node version) are injected, so that the real
+// Create{Opening,Preimage,Csv,Coop}SpendingTransaction adapters can be run
+// against fake wallet RPCs without a node.
+
+// VerifNewWalletClient returns a ClightningClient connected to the lightningd
+// RPC socket dir/rpcFile, using the given bitcoind client and chain helper.
+func VerifNewWalletClient(dir, rpcFile, version string, bitcoin *gbitcoin.Bitcoin, chain *onchain.BitcoinOnChain) (*ClightningClient, error) {
+	cl := &ClightningClient{
+		version:        version,
+		glightning:     glightning.NewLightning(),
+		gbitcoin:       bitcoin,
+		bitcoinChain:   chain,
+		bitcoinNetwork: chain.GetChain(),
+	}
+	if err := cl.glightning.StartUp(rpcFile, dir); err != nil {
+		return nil, err
+	}
+	return cl, nil
+}
+
+// VerifSetBitcoinChain replaces the chain helper (fee estimator, fallback and
+// floor differ per generated case) without reconnecting to the RPC socket.
+func (cl *ClightningClient) VerifSetBitcoinChain(chain *onchain.BitcoinOnChain) {
+	cl.bitcoinChain = chain
+	cl.bitcoinNetwork = chain.GetChain()
+}
